@@ -11,14 +11,21 @@ package mqttproxy
 // absent from a client's log when its PINGRESP arrives was never sent to that client.
 
 import (
+	"bytes"
+	"encoding/base64"
+	"encoding/hex"
+	"encoding/json"
 	"fmt"
 	"math/rand"
 	"net"
+	"net/http"
+	"net/http/httptest"
 	"sort"
 	"strings"
 	"sync"
 	"testing"
 	"time"
+	"unicode/utf8"
 
 	"github.com/eclipse/paho.mqtt.golang/packets"
 	"verif.local/kit"
@@ -129,10 +136,222 @@ func c15randPop(rng *rand.Rand) c15Pop {
 }
 
 type c15msg struct {
-	Topic   string `json:"topic"`
-	QoS     int    `json:"qos"`
-	Payload string `json:"payload"`
-	Dist    bool   `json:"distributed"`
+	Topic string `json:"topic"`
+	QoS   int    `json:"qos"`
+	PL    c15pl  `json:"payload"`
+	Dist  bool   `json:"distributed"`
+}
+
+// ------------------------------------------------------------------ payload content
+//
+// The property speaks about "a message": what is inside the payload must not matter.  Every part
+// therefore draws the payload CONTENT from the classes below.  A message keeps its identity
+// through a unique ASCII id at the start of the payload (id, or id + '|' + body; ids never
+// contain '|'), so the per-client receive logs still tell which message a PUBLISH carries, and
+// the received bytes are compared with the published bytes on EVERY copy (first transmission and
+// retransmissions).  The one payload that cannot carry an id, the completely empty one, is used
+// at most once per receive log and recognised by being empty.
+
+const (
+	c15plAsciiID   = "ascii-id"        // the id alone (the only class of the earlier workload)
+	c15plEmpty     = "empty"           // zero-length payload
+	c15plEmptyBody = "empty-body"      // id + '|' and nothing behind it
+	c15plBinShort  = "binary-short"    // 1-8 random bytes (all values)
+	c15plBin       = "binary"          // 9-300 random bytes
+	c15plBinKB     = "binary-kb"       // 1-4 KB random bytes
+	c15plAllBytes  = "all-byte-values" // each of the 256 byte values once, seeded order
+	c15plNonUTF8   = "non-utf8-bytes"  // 1-24 bytes >= 0x80 (lone continuation bytes, 0xf8-0xff, ...)
+	c15plUTF8      = "utf8-text"       // 1-40 runes from Latin-1 / Greek / CJK / emoji ranges
+	c15plPunct     = "ascii-printable" // 1-40 printable ASCII characters incl. quotes, \ < > & ? ~ + / =
+	c15plControl   = "control-bytes"   // 1-16 bytes from NUL, TAB, LF, CR, ESC, DEL, space
+)
+
+// all classes that carry an id; c15plEmpty is handed out separately (at most one per receive log)
+var c15plClasses = []string{c15plAsciiID, c15plEmptyBody, c15plBinShort, c15plBin, c15plBinKB, c15plAllBytes, c15plNonUTF8, c15plUTF8, c15plPunct, c15plControl}
+
+type c15pl struct {
+	ID    string `json:"id"`
+	Class string `json:"class"`
+	Len   int    `json:"len"`
+	Head  string `json:"body_head_hex,omitempty"`
+	B64   bool   `json:"http_base64_flag"` // how the HTTP publish endpoint gets it: "base64":true + std base64, or the plain JSON string
+	Data  string `json:"-"`                // the published bytes
+}
+
+// c15plGroup is the coarse content kind used in signatures and Require counters.
+func c15plGroup(class string) string {
+	switch class {
+	case c15plAsciiID:
+		return "ascii-id"
+	case c15plEmpty, c15plEmptyBody:
+		return "empty"
+	case c15plUTF8, c15plPunct, c15plControl:
+		return "text"
+	}
+	return "binary"
+}
+
+// c15plSuffix: signature suffix naming the content kind; the plain ascii id (the workload the
+// earlier signatures were defined on) has none.
+func c15plSuffix(m c15pl) string {
+	if g := c15plGroup(m.Class); g != "ascii-id" {
+		return ":" + g + "-payload"
+	}
+	return ""
+}
+
+// c15mkPayload builds the payload of the message `id`; class "" = seeded choice.  The content is
+// a pure function of (seed, part, id, class), independent of the case PRNG.
+func c15mkPayload(r *kit.Run, id, class string) c15pl {
+	rng := r.Rand("payload/" + id)
+	if class == "" {
+		if rng.Intn(10) < 3 {
+			class = c15plAsciiID
+		} else {
+			class = c15plClasses[rng.Intn(len(c15plClasses))]
+		}
+	}
+	pick := func(n int, alphabet []byte) []byte {
+		b := make([]byte, n)
+		for i := range b {
+			b[i] = alphabet[rng.Intn(len(alphabet))]
+		}
+		return b
+	}
+	random := func(n int) []byte {
+		b := make([]byte, n)
+		rng.Read(b)
+		return b
+	}
+	var body []byte
+	switch class {
+	case c15plEmpty:
+		return c15pl{Class: class, B64: rng.Intn(2) == 0}
+	case c15plAsciiID:
+		return c15pl{ID: id, Class: class, Len: len(id), Data: id, B64: rng.Intn(4) == 0}
+	case c15plEmptyBody:
+	case c15plBinShort:
+		body = random(1 + rng.Intn(8))
+	case c15plBin:
+		body = random(9 + rng.Intn(292))
+	case c15plBinKB:
+		body = random(1024 + rng.Intn(3*1024+1))
+	case c15plAllBytes:
+		start, stride := rng.Intn(256), 2*rng.Intn(128)+1
+		body = make([]byte, 256)
+		for i := range body {
+			body[i] = byte(start + i*stride)
+		}
+	case c15plNonUTF8:
+		body = make([]byte, 1+rng.Intn(24))
+		for i := range body {
+			body[i] = byte(0x80 + rng.Intn(0x80))
+		}
+	case c15plUTF8:
+		ranges := [][2]rune{{0xa1, 0xff}, {0x391, 0x3c9}, {0x4e00, 0x9fa5}, {0x1f600, 0x1f64f}, {0x20, 0x7e}}
+		var sb strings.Builder
+		for i, n := 0, 1+rng.Intn(40); i < n; i++ {
+			rg := ranges[rng.Intn(len(ranges))]
+			sb.WriteRune(rg[0] + rune(rng.Intn(int(rg[1]-rg[0])+1)))
+		}
+		body = []byte(sb.String())
+	case c15plPunct:
+		body = make([]byte, 1+rng.Intn(40))
+		for i := range body {
+			body[i] = byte(0x20 + rng.Intn(0x7f-0x20))
+		}
+	case c15plControl:
+		body = pick(1+rng.Intn(16), []byte{0x00, 0x09, 0x0a, 0x0d, 0x1b, 0x7f, 0x20})
+	}
+	m := c15pl{ID: id, Class: class, Data: id + "|" + string(body)}
+	m.Len = len(m.Data)
+	if h := body; len(h) > 0 {
+		if len(h) > 24 {
+			h = h[:24]
+		}
+		m.Head = hex.EncodeToString(h)
+	}
+	// a JSON string cannot carry bytes that are not UTF-8: those need the endpoint's base64 flag
+	m.B64 = !utf8.ValidString(m.Data) || rng.Intn(2) == 0
+	return m
+}
+
+// c15plIs: does a received payload carry the identity of message m?
+func c15plIs(got string, m c15pl) bool {
+	if m.ID == "" {
+		return got == ""
+	}
+	n := len(m.ID)
+	return len(got) >= n && got[:n] == m.ID && (len(got) == n || got[n] == '|')
+}
+
+// c15plKey: the identity a received payload carries ("" for the empty payload).
+func c15plKey(got string) string {
+	if k := strings.IndexByte(got, '|'); k >= 0 {
+		return got[:k]
+	}
+	return got
+}
+
+// c15plShow renders arbitrary payload bytes for evidence (JSON cannot hold them literally).
+func c15plShow(p string) string {
+	printable := utf8.ValidString(p)
+	for i := 0; printable && i < len(p); i++ {
+		printable = p[i] >= 0x20 && p[i] != 0x7f
+	}
+	if printable && len(p) <= 80 {
+		return p
+	}
+	id := c15plKey(p)
+	if len(id) > 40 || id == p {
+		id = ""
+	}
+	h := p[len(id):]
+	if len(h) > 32 {
+		h = h[:32]
+	}
+	return fmt.Sprintf("%s<%d bytes, hex after id: %s...>", id, len(p), hex.EncodeToString([]byte(h)))
+}
+
+// c15plBase64Shape: which features the standard base64 text of the payload has (the session
+// keeps unacknowledged QoS1 payloads as base64 text: Message.B64Payload).
+func c15plBase64Shape(p string) (plusOrSlash, padded bool) {
+	s := base64.StdEncoding.EncodeToString([]byte(p))
+	return strings.ContainsAny(s, "+/"), strings.HasSuffix(s, "=")
+}
+
+// c15httpPublish injects payload m through the real HTTP publish endpoint handler, either as the
+// plain JSON string or base64-encoded with "base64":true (the endpoint's way to take binary).
+func c15httpPublish(rb *c15rigBroker, topic string, qos int, m c15pl, distributed bool) int {
+	data := HTTPJsonData{Topic: topic, QoS: qos, Payload: m.Data, Distributed: distributed}
+	if m.B64 {
+		data.Base64, data.Payload = true, base64.StdEncoding.EncodeToString([]byte(m.Data))
+	}
+	body, _ := json.Marshal(data)
+	req := httptest.NewRequest(http.MethodPost, "/apis/v1"+rb.b.mqttAPIPrefix(mqttAPITopicPublishPrefix), bytes.NewReader(body))
+	w := httptest.NewRecorder()
+	rb.b.httpTopicsPublishHandler(w, req)
+	return w.Code
+}
+
+// c15logView: a receive log with payloads rendered by c15plShow.
+func c15logView(evts []c15rigEvt) []c15rigEvt {
+	out := append([]c15rigEvt(nil), evts...)
+	for i := range out {
+		out[i].Payload = c15plShow(out[i].Payload)
+	}
+	return out
+}
+
+// c15unknownPayloads: PUBLISH packets in c's log that carry the identity of none of the messages
+// published to it (known: identity -> published bytes).
+func c15unknownPayloads(c *c15rigClient, known map[string]string) (out []string) {
+	for _, e := range c.pubs() {
+		if _, ok := known[c15plKey(e.Payload)]; !ok {
+			out = append(out, e.Topic+" <- "+c15plShow(e.Payload))
+		}
+	}
+	return
 }
 
 // c15subscribeStep is one SUBSCRIBE packet of one client.
@@ -146,8 +365,8 @@ func TestVerif_C15_Delivery(t *testing.T) {
 	c15rigSkipForReplay(t)
 	r := kit.Start(t, "C15")
 	defer r.Finish()
-	r.Rule("subscriber populations (13 systematic: same filter with QoS patterns 01/10/11/00/011/101/01011, cross-client overlapping filters with +/#, one client with overlapping filters of different QoS; then seeded random: 2-5 clients x 1-2 filters from a 12-filter alphabet, one QoS per client) x 4 fresh broker instances per population with shuffled connect/SUBSCRIBE order (insertion order of the subscriber maps) x 5 rounds x every (topic, QoS 0/1) injected through httpTopicsPublishHandler in bursts of 1-8; each (population,message) is therefore repeated >= 20 times because the visiting order is a Go map iteration; distinct = (class, per-client (minQ,maxQ) pattern for the topic, message QoS, set of eligible clients that received it)")
-	r.Assume("filters are well-formed, topics contain no '$' and no wildcard; bursts stay far below the 50-packet write queue so a QoS0 drop is never legitimate; clients acknowledge QoS1 immediately in this part; delivery to clients whose subscription QoS is below the message QoS is counted but not judged (the property sentence only says who MUST receive)")
+	r.Rule("subscriber populations (13 systematic: same filter with QoS patterns 01/10/11/00/011/101/01011, cross-client overlapping filters with +/#, one client with overlapping filters of different QoS; then seeded random: 2-5 clients x 1-2 filters from a 12-filter alphabet, one QoS per client) x 4 fresh broker instances per population with shuffled connect/SUBSCRIBE order (insertion order of the subscriber maps) x 5 rounds x every (topic, QoS 0/1) injected through httpTopicsPublishHandler in bursts of 1-8; each (population,message) is therefore repeated >= 20 times because the visiting order is a Go map iteration; payload content of every message drawn from the classes {unique ascii id alone; id|<nothing>; id|1-8 / 9-300 / 1-4 KB random bytes; id|all 256 byte values; id|bytes >= 0x80 that are not UTF-8; id|UTF-8 text (Latin-1, Greek, CJK, emoji); id|printable ASCII incl. quotes \\ < > & ? ~ + / =; id|NUL/TAB/LF/CR/ESC/DEL} plus the completely empty payload (at most once per receive log), injected either as the plain JSON string or with the endpoint's base64 flag (always for bytes that are not UTF-8); a message is recognised in a receive log by the id at the start of its payload and the received bytes of EVERY copy must equal the published bytes; distinct = (class, per-client (minQ,maxQ) pattern for the topic, message QoS, set of eligible clients that received it)")
+	r.Assume("filters are well-formed, topics contain no '$' and no wildcard; bursts stay far below the 50-packet write queue so a QoS0 drop is never legitimate; clients acknowledge QoS1 immediately in this part; delivery to clients whose subscription QoS is below the message QoS is counted but not judged (the property sentence only says who MUST receive); 'the message is delivered' = a PUBLISH with its topic, its QoS and exactly its payload bytes arrives (payload sizes 0 B - 4.2 KB; a zero-length payload is a legal MQTT message); the id at the start of the payload is how the harness tells messages apart, a copy whose identity is unreadable is reported as a payload of no published message")
 	sys := c15sysPops()
 	nPops := r.N(60, 3000)
 	const orders, rounds = 4, 5
@@ -188,6 +407,9 @@ func TestVerif_C15_Delivery(t *testing.T) {
 	r.Require("ping_barriers", 1)
 	r.Require("messages_with_lower_qos_subscriber_present", 1)
 	r.Require("populations_with_several_distinct_first_receivers", 1)
+	for _, g := range []string{"ascii-id", "empty", "text", "binary"} {
+		r.Require("delivered_identical_payload_kind:"+g, 1)
+	}
 }
 
 // c15runInstance: one fresh broker, the population connected and subscribed in a shuffled
@@ -247,11 +469,24 @@ func c15runInstance(r *kit.Run, rng *rand.Rand, caseNo, ord, rounds int, pop c15
 		}
 	}
 	seq := 0
+	known := map[string]string{} // identity -> published bytes, of everything injected into this broker
+	// at most one message per broker instance has the completely empty payload (it cannot carry an id)
+	plr := r.Rand(fmt.Sprintf("delivery-empty/%d/%d", caseNo, ord))
+	emptyAt := -1
+	if plr.Intn(2) == 0 {
+		emptyAt = plr.Intn(rounds * 2 * len(pop.Topics))
+	}
 	for round := 0; round < rounds; round++ {
 		var msgs []c15msg
 		for _, tp := range pop.Topics {
 			for q := 0; q <= 1; q++ {
-				msgs = append(msgs, c15msg{Topic: tp, QoS: q, Payload: fmt.Sprintf("m%d.%d.%d.%d", caseNo, ord, round, seq), Dist: rng.Intn(2) == 0})
+				class := ""
+				if seq == emptyAt {
+					class = c15plEmpty
+				}
+				m := c15msg{Topic: tp, QoS: q, PL: c15mkPayload(r, fmt.Sprintf("m%d.%d.%d.%d", caseNo, ord, round, seq), class), Dist: rng.Intn(2) == 0}
+				known[m.PL.ID] = m.PL.Data
+				msgs = append(msgs, m)
 				seq++
 			}
 		}
@@ -264,8 +499,8 @@ func c15runInstance(r *kit.Run, rng *rand.Rand, caseNo, ord, rounds int, pop c15
 			burst := msgs[:n]
 			msgs = msgs[n:]
 			for _, m := range burst {
-				if code := rb.httpPublish(m.Topic, m.QoS, m.Payload, m.Dist); code != 200 {
-					r.Violation(fmt.Sprintf("http-publish-rejected:%d", code), map[string]interface{}{"msg": m})
+				if code := c15httpPublish(rb, m.Topic, m.QoS, m.PL, m.Dist); code != 200 {
+					r.Violation(fmt.Sprintf("http-publish-rejected:%d%s", code, c15plSuffix(m.PL)), map[string]interface{}{"msg": m})
 				}
 			}
 			if !rb.publishQuiesced() {
@@ -285,14 +520,20 @@ func c15runInstance(r *kit.Run, rng *rand.Rand, caseNo, ord, rounds int, pop c15
 				}
 			}
 			for _, m := range burst {
-				c15judge(r, pop, clients, m, orderDesc, firsts)
+				c15judge(r, pop, clients, m, orderDesc, firsts, known)
 			}
+		}
+	}
+	// nothing but the published messages may have arrived
+	for ci, c := range clients {
+		if unk := c15unknownPayloads(c, known); len(unk) > 0 {
+			r.Violation("delivered-payload-of-no-published-message", map[string]interface{}{"population": pop, "client": pop.Clients[ci], "received": unk})
 		}
 	}
 	return true
 }
 
-func c15judge(r *kit.Run, pop c15Pop, clients []*c15rigClient, m c15msg, orderDesc []string, firsts map[string]map[string]bool) {
+func c15judge(r *kit.Run, pop c15Pop, clients []*c15rigClient, m c15msg, orderDesc []string, firsts map[string]map[string]bool, known map[string]string) {
 	r.Eval(1)
 	type st struct {
 		CID         string `json:"cid"`
@@ -301,7 +542,9 @@ func c15judge(r *kit.Run, pop c15Pop, clients []*c15rigClient, m c15msg, orderDe
 		Owed        bool   `json:"owed"`
 		Copies      int    `json:"copies"`
 		at          time.Time
-		BadTopicQoS bool `json:"bad_topic_or_qos,omitempty"`
+		BadTopicQoS bool   `json:"bad_topic_or_qos,omitempty"`
+		BadPayload  string `json:"received_bytes_differ,omitempty"`
+		Strange     string `json:"unidentifiable_publish_on_this_topic,omitempty"`
 	}
 	sts := make([]st, len(clients))
 	lowerStrict, lowerMaybe := 0, 0 // other subscribers certainly / possibly reported below the message QoS
@@ -309,7 +552,7 @@ func c15judge(r *kit.Run, pop c15Pop, clients []*c15rigClient, m c15msg, orderDe
 		minQ, maxQ := c15elig(cs, m.Topic)
 		s := st{CID: cs.CID, MinQ: minQ, MaxQ: maxQ, Owed: maxQ >= m.QoS}
 		for _, e := range clients[ci].pubs() {
-			if e.Payload == m.Payload {
+			if c15plIs(e.Payload, m.PL) {
 				if s.Copies == 0 {
 					s.at = e.At
 				}
@@ -317,6 +560,11 @@ func c15judge(r *kit.Run, pop c15Pop, clients []*c15rigClient, m c15msg, orderDe
 				if e.Topic != m.Topic || int(e.QoS) != m.QoS {
 					s.BadTopicQoS = true
 				}
+				if e.Payload != m.PL.Data {
+					s.BadPayload = c15plShow(e.Payload)
+				}
+			} else if _, ok := known[c15plKey(e.Payload)]; !ok && e.Topic == m.Topic && int(e.QoS) == m.QoS {
+				s.Strange = c15plShow(e.Payload)
 			}
 		}
 		if maxQ >= 0 && maxQ < m.QoS {
@@ -348,9 +596,19 @@ func c15judge(r *kit.Run, pop c15Pop, clients []*c15rigClient, m c15msg, orderDe
 			if s.BadTopicQoS {
 				r.Violation("delivered-with-wrong-topic-or-qos", map[string]interface{}{"population": pop, "msg": m, "client": s})
 			}
+			if s.BadPayload != "" {
+				r.Violation(fmt.Sprintf("delivered-payload-differs-from-published:q%d%s", m.QoS, c15plSuffix(m.PL)), map[string]interface{}{"population": pop, "msg": m, "client": s})
+			} else {
+				r.Count("delivered_identical_payload_kind:"+c15plGroup(m.PL.Class), 1)
+			}
 			if s.Copies > 1 {
 				r.Count("duplicate_copies_seen", 1)
 			}
+		case s.Owed && s.Strange != "":
+			// nothing with the identity of m arrived, but a PUBLISH of this topic and QoS whose payload
+			// belongs to no published message did: the message was delivered with damaged content
+			owed++
+			r.Violation(fmt.Sprintf("delivered-payload-differs-from-published:q%d%s:identity-lost", m.QoS, c15plSuffix(m.PL)), map[string]interface{}{"population": pop, "subscribe_order": orderDesc, "msg": m, "client": s})
 		case s.Owed:
 			owed++
 			self := s.MinQ < m.QoS // this client itself may be reported with its lower QoS
@@ -367,6 +625,9 @@ func c15judge(r *kit.Run, pop c15Pop, clients []*c15rigClient, m c15msg, orderDe
 				why = "same-client-mixed-qos-overlap"
 			case self || others > 0:
 				why = "mixed-qos-overlap-and-lower-qos-subscriber"
+			}
+			if why == "all-matching-subscribers-eligible" {
+				why += c15plSuffix(m.PL) // the population does not explain the loss: name the payload kind
 			}
 			r.Violation(fmt.Sprintf("delivery-missed:q%d:%s", m.QoS, why), map[string]interface{}{
 				"population": pop, "subscribe_order": orderDesc, "msg": m, "missed_by": s.CID, "clients": sts,
@@ -404,21 +665,26 @@ func c15judge(r *kit.Run, pop c15Pop, clients []*c15rigClient, m c15msg, orderDe
 // ------------------------------------------------------------------ retransmission
 
 type c15lane struct {
-	Lane         int    `json:"lane"`
-	Topic        string `json:"topic"`
-	K            int    `json:"messages"`
-	AckDelay     []int  `json:"ack_after_extra_copies"`
-	WrongAck     []bool `json:"foreign_puback_first"`
-	AutoSub      bool   `json:"second_subscriber_acking"`
-	NeverSub     bool   `json:"third_subscriber_never_acking"`
-	DoublePuback bool   `json:"puback_sent_twice"`
+	Lane         int      `json:"lane"`
+	Topic        string   `json:"topic"`
+	K            int      `json:"messages"`
+	AckDelay     []int    `json:"ack_after_extra_copies"`
+	WrongAck     []bool   `json:"foreign_puback_first"`
+	AutoSub      bool     `json:"second_subscriber_acking"`
+	NeverSub     bool     `json:"third_subscriber_never_acking"`
+	DoublePuback bool     `json:"puback_sent_twice"`
+	Classes      []string `json:"payload_classes"`
 }
+
+// the payload kinds of the retransmission lanes, handed out in rotation so that every case
+// (24 message slots) has each of them at least twice, at varying positions of the pending queue
+var c15laneClasses = append([]string{c15plEmpty}, c15plClasses...)
 
 func TestVerif_C15_Retransmit(t *testing.T) {
 	c15rigSkipForReplay(t)
 	r := kit.Start(t, "C15")
 	defer r.Finish()
-	r.Rule("per case one broker and 6 concurrent lanes; a lane = own topic, a primary QoS1 subscriber whose PUBACKs the harness controls (1-3 messages + a pacer message, acked in order after 1-3 retransmissions, optionally preceded by a PUBACK for a foreign id, optionally sent twice), optionally a second subscriber that acks at once and a third that never acks; checks: same packet id/topic/payload on every copy, >=1 spontaneous retransmission while unacked, no copy after PUBACK+PINGRESP while the next message is seen retransmitted >= 4 times (last message: 6 harness ticks), never-acking subscriber keeps being served; distinct = (messages, ack delays, foreign-ack flags, population of the lane)")
+	r.Rule("per case one broker and 6 concurrent lanes; a lane = own topic, a primary QoS1 subscriber whose PUBACKs the harness controls (1-3 messages + a pacer message, acked in order after 1-3 retransmissions, optionally preceded by a PUBACK for a foreign id, optionally sent twice), optionally a second subscriber that acks at once and a third that never acks; the payload kinds (11 classes: completely empty, ascii id alone, id|nothing, id|random bytes 1-8 / 9-300 / 1-4 KB, id|all 256 byte values, id|non-UTF-8 bytes, id|UTF-8 text, id|printable ASCII, id|control bytes) are handed out in rotation so that every case has each kind at least twice at varying positions of the pending queue, injected as plain JSON string or with the endpoint's base64 flag; checks: same packet id/topic and byte-identical payload on every copy (first transmission and every retransmission, also for the never-acking subscriber), nothing received that is not a published message, >=1 spontaneous retransmission while unacked, no copy after PUBACK+PINGRESP while the next message is seen retransmitted >= 4 times (last message: 6 harness ticks), never-acking subscriber keeps being served; required observations: byte-identical retransmissions seen for every payload class, for payloads whose standard base64 text (the form Session.pending keeps them in) contains '+' or '/', is padded with '=' and is unpadded; distinct = (messages, ack delays, foreign-ack flags, population of the lane, payload class)")
 	r.Assume("only the oldest unacknowledged message of a session is retransmitted (head of line), so retransmission of message i is demanded only once messages < i are acknowledged")
 	n := r.N(8, 400)
 	const lanes = 6
@@ -434,6 +700,7 @@ func TestVerif_C15_Retransmit(t *testing.T) {
 			for j := 0; j <= k; j++ {
 				ln.AckDelay = append(ln.AckDelay, 1+rng.Intn(3))
 				ln.WrongAck = append(ln.WrongAck, rng.Intn(3) == 0)
+				ln.Classes = append(ln.Classes, c15laneClasses[(i*lanes*4+l*4+j)%len(c15laneClasses)])
 			}
 			ls = append(ls, ln)
 		}
@@ -462,6 +729,16 @@ func TestVerif_C15_Retransmit(t *testing.T) {
 	r.Require("acked_then_silent_windows", 1)
 	r.Require("window_ticks_evidenced_by_next_message", 1)
 	r.Require("never_acking_subscriber_still_served", 1)
+	// payload content: a run that did not see retransmissions of these kinds says nothing about them
+	for _, g := range []string{"ascii-id", "empty", "text", "binary"} {
+		r.Require("retx_identical_payload_kind:"+g, 1)
+	}
+	for _, c := range c15laneClasses {
+		r.Require("retx_identical_payload_class:"+c, 1)
+	}
+	r.Require("retx_identical_payload_whose_std_base64_has_plus_or_slash", 1)
+	r.Require("retx_identical_payload_whose_std_base64_is_padded", 1)
+	r.Require("retx_identical_payload_whose_std_base64_is_unpadded", 1)
 }
 
 func c15runLane(r *kit.Run, rb *c15rigBroker, caseNo int, ln c15lane) {
@@ -504,15 +781,17 @@ func c15runLane(r *kit.Run, rb *c15rigBroker, caseNo int, ln c15lane) {
 	}
 	viol := func(sig string, extra map[string]interface{}) {
 		extra["lane"] = ln
-		extra["primary_log"] = p.events()
+		extra["primary_log"] = c15logView(p.events())
 		r.Violation(sig, extra)
 	}
 	// inject K+1 messages one after the other (so the session's pending order is the publish order)
-	payloads := make([]string, ln.K+1)
-	for j := range payloads {
-		payloads[j] = fmt.Sprintf("%s.m%d", pfx, j)
-		if code := rb.httpPublish(ln.Topic, 1, payloads[j], true); code != 200 {
-			viol(fmt.Sprintf("http-publish-rejected:%d", code), map[string]interface{}{})
+	msgs := make([]c15pl, ln.K+1)
+	known := map[string]string{}
+	for j := range msgs {
+		msgs[j] = c15mkPayload(r, fmt.Sprintf("%s.m%d", pfx, j), ln.Classes[j])
+		known[msgs[j].ID] = msgs[j].Data
+		if code := c15httpPublish(rb, ln.Topic, 1, msgs[j], true); code != 200 {
+			viol(fmt.Sprintf("http-publish-rejected:%d%s", code, c15plSuffix(msgs[j])), map[string]interface{}{"msg": msgs[j]})
 			return
 		}
 		if !rb.publishQuiesced() {
@@ -531,62 +810,120 @@ func c15runLane(r *kit.Run, rb *c15rigBroker, caseNo int, ln c15lane) {
 		}
 		return false
 	}
+	// copies: the PUBLISH packets in c's log that carry the identity of m
+	copies := func(c *c15rigClient, m c15pl) (n int, ids []uint16) {
+		for _, e := range c.pubs() {
+			if c15plIs(e.Payload, m) {
+				n++
+				ids = append(ids, e.MsgID)
+			}
+		}
+		return
+	}
+	// strangers: a copy whose identity got lost shows up as a payload of no published message
+	strangers := func(c *c15rigClient) bool {
+		if unk := c15unknownPayloads(c, known); len(unk) > 0 {
+			viol("delivered-payload-of-no-published-message", map[string]interface{}{"client": c.cid, "received": unk})
+			return true
+		}
+		return false
+	}
 	if !barrier(p) {
 		return
 	}
-	ids := make([]uint16, len(payloads))
-	for j, pl := range payloads {
-		n, got := p.copies(pl)
+	if strangers(p) {
+		return
+	}
+	ids := make([]uint16, len(msgs))
+	for j, m := range msgs {
+		n, got := copies(p, m)
 		if n == 0 {
-			viol("delivery-missed:q1:all-matching-subscribers-eligible", map[string]interface{}{"payload": pl})
+			viol("delivery-missed:q1:all-matching-subscribers-eligible"+c15plSuffix(m), map[string]interface{}{"msg": m})
 			return
 		}
 		ids[j] = got[0]
 		for k := 0; k < j; k++ {
 			if ids[k] == ids[j] {
-				viol("qos1-packet-id-reused-while-pending", map[string]interface{}{"payloads": []string{payloads[k], pl}, "id": ids[j]})
+				viol("qos1-packet-id-reused-while-pending", map[string]interface{}{"msgs": []c15pl{msgs[k], m}, "id": ids[j]})
 				return
 			}
 		}
 	}
-	// waitCopies: until payload has at least `want` copies; bound = harness ticks, each followed by a PING round trip
-	waitCopies := func(pl string, want int) (bool, bool) {
+	// waitCopies: until m has at least `want` copies; bound = harness ticks, each followed by a PING round trip
+	waitCopies := func(m c15pl, want int) (bool, bool) {
 		alive := true
 		ok := c15rigTicks(c15rigMaxTicks, func(int) bool {
 			if !barrier(p) {
 				alive = false
 				return true
 			}
-			n, _ := p.copies(pl)
+			n, _ := copies(p, m)
 			return n >= want
 		})
 		return ok && alive, alive
 	}
-	sameAll := func(pl string, id uint16) bool {
-		for _, e := range p.pubs() {
-			if e.Payload == pl && (e.MsgID != id || e.Topic != ln.Topic || e.QoS != 1) {
-				return false
+	// sameAll: every copy of m so far (first transmission and retransmissions) has the packet id,
+	// topic, QoS of the first one and exactly the published bytes; "" = yes, else what differs
+	sameAll := func(c *c15rigClient, m c15pl, id uint16) string {
+		first := true
+		for _, e := range c.pubs() {
+			if !c15plIs(e.Payload, m) {
+				continue
 			}
+			which := "retransmission-differs-from-original"
+			if first {
+				which = "delivered-payload-differs-from-published:q1"
+			}
+			if e.Payload != m.Data {
+				if first {
+					return which + c15plSuffix(m)
+				}
+				return which + ":payload-bytes" + c15plSuffix(m)
+			}
+			if e.MsgID != id || e.Topic != ln.Topic || e.QoS != 1 {
+				if first {
+					return "delivered-with-wrong-topic-or-qos"
+				}
+				return which
+			}
+			first = false
 		}
-		return true
+		return ""
 	}
-	for j, pl := range payloads {
+	for j, m := range msgs {
 		want := 1 + ln.AckDelay[j]
-		ok, alive := waitCopies(pl, want)
+		ok, alive := waitCopies(m, want)
 		if !alive {
 			return
 		}
+		if strangers(p) {
+			return
+		}
 		if !ok {
-			n, _ := p.copies(pl)
-			viol("qos1-not-retransmitted-while-unacked", map[string]interface{}{"payload": pl, "copies": n, "wanted": want, "harness_ticks_of_200ms_each_followed_by_ping": c15rigMaxTicks, "position_in_pending_queue": j})
+			n, _ := copies(p, m)
+			plusSlash, padded := c15plBase64Shape(m.Data)
+			viol("qos1-not-retransmitted-while-unacked"+c15plSuffix(m), map[string]interface{}{"msg": m, "copies": n, "wanted": want, "harness_ticks_of_200ms_each_followed_by_ping": c15rigMaxTicks, "position_in_pending_queue": j,
+				"std_base64_of_payload_has_plus_or_slash": plusSlash, "std_base64_of_payload_is_padded": padded})
 			return
 		}
-		if nNow, _ := p.copies(pl); nNow > 1 {
+		if what := sameAll(p, m, ids[j]); what != "" {
+			viol(what, map[string]interface{}{"msg": m, "id": ids[j]})
+			return
+		}
+		if nNow, _ := copies(p, m); nNow > 1 {
 			r.Count("retransmissions_seen", int64(nNow-1))
-		}
-		if !sameAll(pl, ids[j]) {
-			viol("retransmission-differs-from-original", map[string]interface{}{"payload": pl, "id": ids[j]})
-			return
+			// the retransmitted copies were byte-identical to what was published: which content kinds
+			r.Count("retx_identical_payload_kind:"+c15plGroup(m.Class), 1)
+			r.Count("retx_identical_payload_class:"+m.Class, 1)
+			plusSlash, padded := c15plBase64Shape(m.Data)
+			if plusSlash {
+				r.Count("retx_identical_payload_whose_std_base64_has_plus_or_slash", 1)
+			}
+			if padded {
+				r.Count("retx_identical_payload_whose_std_base64_is_padded", 1)
+			} else {
+				r.Count("retx_identical_payload_whose_std_base64_is_unpadded", 1)
+			}
 		}
 		if ln.WrongAck[j] {
 			foreign := ids[j] ^ 0x4000
@@ -594,13 +931,13 @@ func c15runLane(r *kit.Run, rb *c15rigBroker, caseNo int, ln c15lane) {
 			if !barrier(p) {
 				return
 			}
-			n0, _ := p.copies(pl)
-			ok, alive := waitCopies(pl, n0+1)
+			n0, _ := copies(p, m)
+			ok, alive := waitCopies(m, n0+1)
 			if !alive {
 				return
 			}
 			if !ok {
-				viol("qos1-retransmission-stopped-by-foreign-puback", map[string]interface{}{"payload": pl, "id": ids[j], "foreign_id": foreign})
+				viol("qos1-retransmission-stopped-by-foreign-puback", map[string]interface{}{"msg": m, "id": ids[j], "foreign_id": foreign})
 				return
 			}
 			r.Count("foreign_puback_ignored", 1)
@@ -612,32 +949,37 @@ func c15runLane(r *kit.Run, rb *c15rigBroker, caseNo int, ln c15lane) {
 		if !barrier(p) {
 			return
 		}
-		n0, _ := p.copies(pl)
-		// silent window: no copy of pl any more
-		if j+1 < len(payloads) {
+		n0, _ := copies(p, m)
+		// silent window: no copy of m any more
+		if j+1 < len(msgs) {
 			// the next message is now the oldest unacknowledged one: wait until it has been
 			// retransmitted 4 more times = 4 resend ticks have certainly happened
-			nx := payloads[j+1]
-			b0, _ := p.copies(nx)
+			nx := msgs[j+1]
+			b0, _ := copies(p, nx)
 			alive, again := true, false
 			ok := c15rigTicks(c15rigMaxTicks, func(int) bool {
 				if !barrier(p) {
 					alive = false
 					return true
 				}
-				if n, _ := p.copies(pl); n > n0 { // the acknowledged message came again: no need to wait further
+				if n, _ := copies(p, m); n > n0 { // the acknowledged message came again: no need to wait further
 					again = true
 					return true
 				}
-				n, _ := p.copies(nx)
+				n, _ := copies(p, nx)
 				return n >= b0+4
 			})
 			if !alive {
 				return
 			}
+			if strangers(p) {
+				return
+			}
 			if !ok && !again {
-				n, _ := p.copies(nx)
-				viol("qos1-not-retransmitted-while-unacked", map[string]interface{}{"payload": nx, "copies": n, "wanted": b0 + 4, "position_in_pending_queue": j + 1, "after_ack_of": pl})
+				n, _ := copies(p, nx)
+				plusSlash, padded := c15plBase64Shape(nx.Data)
+				viol("qos1-not-retransmitted-while-unacked"+c15plSuffix(nx), map[string]interface{}{"msg": nx, "copies": n, "wanted": b0 + 4, "position_in_pending_queue": j + 1, "after_ack_of": m,
+					"std_base64_of_payload_has_plus_or_slash": plusSlash, "std_base64_of_payload_is_padded": padded})
 				return
 			}
 			r.Count("window_ticks_evidenced_by_next_message", 1)
@@ -651,32 +993,42 @@ func c15runLane(r *kit.Run, rb *c15rigBroker, caseNo int, ln c15lane) {
 				return
 			}
 		}
-		n1, _ := p.copies(pl)
+		n1, _ := copies(p, m)
 		if n1 > n0 {
-			viol("qos1-retransmitted-after-puback", map[string]interface{}{"payload": pl, "id": ids[j], "copies_at_pingresp_after_puback": n0, "copies_later": n1})
+			viol("qos1-retransmitted-after-puback", map[string]interface{}{"msg": m, "id": ids[j], "copies_at_pingresp_after_puback": n0, "copies_later": n1})
+			return
+		}
+		if what := sameAll(p, m, ids[j]); what != "" {
+			viol(what, map[string]interface{}{"msg": m, "id": ids[j]})
 			return
 		}
 		r.Count("acked_then_silent_windows", 1)
-		r.Cover(fmt.Sprintf("retx:k%d/pos%d/delay%d/foreign%v/double%v/auto%v/never%v", ln.K, j, ln.AckDelay[j], ln.WrongAck[j], ln.DoublePuback, ln.AutoSub, ln.NeverSub))
+		r.Cover(fmt.Sprintf("retx:k%d/pos%d/delay%d/foreign%v/double%v/auto%v/never%v/%s", ln.K, j, ln.AckDelay[j], ln.WrongAck[j], ln.DoublePuback, ln.AutoSub, ln.NeverSub, m.Class))
 	}
 	if never != nil {
 		// it never acknowledged anything: its oldest message must still be retransmitted
 		if st := never.ping(); st == "ok" {
-			n, _ := never.copies(payloads[0])
-			if n >= 2 {
-				r.Count("never_acking_subscriber_still_served", 1)
-			} else {
-				ok := c15rigTicks(c15rigMaxTicks, func(int) bool {
+			n, _ := copies(never, msgs[0])
+			if n < 2 {
+				c15rigTicks(c15rigMaxTicks, func(int) bool {
 					if never.ping() != "ok" {
 						return true
 					}
-					n, _ = never.copies(payloads[0])
+					n, _ = copies(never, msgs[0])
 					return n >= 2
 				})
-				if ok && n >= 2 {
+			}
+			_, nids := copies(never, msgs[0])
+			switch {
+			case n < 2 && len(c15unknownPayloads(never, known)) > 0:
+				viol("delivered-payload-of-no-published-message", map[string]interface{}{"client": never.cid, "received": c15unknownPayloads(never, known)})
+			case n < 2:
+				viol("qos1-not-retransmitted-while-unacked"+c15plSuffix(msgs[0]), map[string]interface{}{"msg": msgs[0], "copies": n, "client": never.cid, "position_in_pending_queue": 0})
+			default:
+				if what := sameAll(never, msgs[0], nids[0]); what != "" {
+					viol(what, map[string]interface{}{"msg": msgs[0], "client": never.cid, "log": c15logView(never.events())})
+				} else {
 					r.Count("never_acking_subscriber_still_served", 1)
-				} else if n < 2 {
-					viol("qos1-not-retransmitted-while-unacked", map[string]interface{}{"payload": payloads[0], "copies": n, "client": never.cid, "position_in_pending_queue": 0})
 				}
 			}
 		}
@@ -694,15 +1046,30 @@ type c15out struct {
 	Topic   string `json:"topic"`
 	QoS     byte   `json:"qos"`
 	ID      uint16 `json:"id"`
-	Payload string `json:"payload"`
+	Payload string `json:"-"`       // the bytes sent
+	Show    string `json:"payload"` // c15plShow(Payload)
+	Class   string `json:"payload_class"`
 	Dup     bool   `json:"dup"`
+}
+
+// c15mkOut fills the payload fields of a client PUBLISH from the payload classes; empty = the
+// completely empty payload (at most one per publishing client: the pipeline record of it is
+// recognised by being empty).
+func c15mkOut(r *kit.Run, o c15out, id string, empty bool) c15out {
+	class := ""
+	if empty {
+		class = c15plEmpty
+	}
+	m := c15mkPayload(r, id, class)
+	o.Payload, o.Show, o.Class = m.Data, c15plShow(m.Data), m.Class
+	return o
 }
 
 func TestVerif_C15_ClientPublish(t *testing.T) {
 	c15rigSkipForReplay(t)
 	r := kit.Start(t, "C15")
 	defer r.Finish()
-	r.Rule("3 raw clients publish 12-40 packets each concurrently and back to back (QoS0/QoS1 mix, unique payloads, some packets re-sent with the same id and DUP), then PINGREQ/PINGRESP; without limiter: recording pipeline calls per packet == packets sent, PUBACKs per id == QoS1 packets sent with that id, nothing else acknowledged; with a clientPublishLimit: for every QoS1 id #PUBACK == #pipeline calls <= #sent; distinct = (limiter, qos, dup, outcome)")
+	r.Rule("3 raw clients publish 12-40 packets each concurrently and back to back (QoS0/QoS1 mix, unique payloads from the payload content classes of the Delivery part: ascii id alone, id|binary of 0 B - 4 KB incl. all byte values and non-UTF-8 bytes, id|UTF-8 / printable / control text, at most one completely empty payload per client; some packets re-sent with the same id and DUP), then PINGREQ/PINGRESP; the bytes the pipeline is handed must be the bytes of a packet that client sent; without limiter: recording pipeline calls per packet == packets sent, PUBACKs per id == QoS1 packets sent with that id, nothing else acknowledged; with a clientPublishLimit: for every QoS1 id #PUBACK == #pipeline calls <= #sent; distinct = (limiter, qos, dup, outcome)")
 	r.Assume("the recording pipeline never drops or disconnects")
 	n := r.N(12, 400)
 	for i := 0; i < n; i++ {
@@ -715,8 +1082,9 @@ func TestVerif_C15_ClientPublish(t *testing.T) {
 			var outs []c15out
 			cnt := 12 + rng.Intn(29)
 			id := uint16(1 + rng.Intn(60000))
+			emptyAt := r.Rand(fmt.Sprintf("clientpublish-empty/%d/%d", i, c)).Intn(2 * cnt) // >= cnt: none
 			for k := 0; k < cnt; k++ {
-				o := c15out{Topic: fmt.Sprintf("up/%d/%d", c, rng.Intn(3)), QoS: byte(rng.Intn(2)), Payload: fmt.Sprintf("u%d.%d.%d", i, c, k)}
+				o := c15mkOut(r, c15out{Topic: fmt.Sprintf("up/%d/%d", c, rng.Intn(3)), QoS: byte(rng.Intn(2))}, fmt.Sprintf("u%d.%d.%d", i, c, k), k == emptyAt)
 				if o.QoS == 1 {
 					id++
 					if id == 0 {
@@ -764,6 +1132,9 @@ func TestVerif_C15_ClientPublish(t *testing.T) {
 	r.Require("dup_resends", 1)
 	r.Require("limiter_dropped", 1)
 	r.Require("limiter_passed", 1)
+	for _, g := range []string{"ascii-id", "empty", "text", "binary"} {
+		r.Require("client_publish_payload_identical_in_pipeline:"+g, 1)
+	}
 }
 
 func c15runPublisher(r *kit.Run, rb *c15rigBroker, cid string, limiter bool, outs []c15out) {
@@ -822,10 +1193,16 @@ func c15judgePublisher(r *kit.Run, rb *c15rigBroker, c *c15rigClient, cid string
 		}
 		o, ok := byPayload[pc.Payload]
 		if !ok || o.Topic != pc.Topic || o.QoS != pc.QoS || (o.QoS == 1 && o.ID != pc.MsgID) {
-			r.Violation("client-publish:pipeline-saw-different-packet", map[string]interface{}{"cid": cid, "pipeline": pc, "sent": o})
+			sig := "client-publish:pipeline-saw-different-packet"
+			if !ok {
+				sig += ":payload-of-no-packet-sent" // the bytes handed to the pipeline are not the bytes of any PUBLISH of this client
+			}
+			pc.Payload = c15plShow(pc.Payload)
+			r.Violation(sig, map[string]interface{}{"cid": cid, "pipeline": pc, "sent": o})
 			continue
 		}
 		calls[pc.Payload]++
+		r.Count("client_publish_payload_identical_in_pipeline:"+c15plGroup(o.Class), 1)
 		if pc.QoS == 1 {
 			callsID[pc.MsgID]++
 		}
@@ -992,6 +1369,7 @@ type c15bpPlan struct {
 	RcvBufKB   int          `json:"slow_client_rcvbuf_kb"`
 	SndBufKB   int          `json:"broker_side_sndbuf_kb_of_slow_client_connection"`
 	Rounds     []c15bpRound `json:"rounds"`
+	BinFlood   bool         `json:"flood_payload_is_random_bytes"`
 }
 
 const (
@@ -1004,7 +1382,7 @@ func TestVerif_C15_BackPressure(t *testing.T) {
 	c15rigSkipForReplay(t)
 	r := kit.Start(t, "C15")
 	defer r.Finish()
-	r.Rule("back-pressure: per case one broker, a SLOW client (subscribed to the burst topic with QoS 0/1, also a publisher; fixed 256/1024 KB receive buffer, fixed 128/512 KB kernel send buffer on the broker's side of its connection) and a FAST client (subscribed to the same topic with QoS 0/1, also a publisher); 1-2 rounds of: the slow client stops reading its socket, a bounded QoS0 burst (batches of 10 messages of 16/64 KB through httpTopicsPublishHandler, at most 1200) is injected until the slow client's outbound queue (writeCh, 50 slots) is observed full and stays full while nothing is injected, the fast client publishes 2-6 packets during the burst, then while the queue is full the slow client sends 2-8 PUBLISH packets (QoS0/QoS1 mix, >= 1 QoS1, some re-sent with DUP) and 0-4 QoS1 messages are injected for the burst topic (before or after the client's own packets), then the slow client reads again; verdicts only after it resumed: publish goroutines finished + two PINGREQ/PINGRESP round trips per client, then every QoS1 PUBLISH of either client has exactly one PUBACK per packet and one pipeline call per packet, and every QoS1 message injected while the queue was full (and one injected after the drain) is in the log of every client subscribed with QoS1 (a copy that only comes with a retransmission within 60 resend ticks is accepted); QoS0 copies of the burst are counted, never judged (the queue IS full); distinct = (sub QoS of both clients, payload size, own QoS1/QoS0 packets, injected QoS1, order, round, queue observed full)")
+	r.Rule("back-pressure: per case one broker, a SLOW client (subscribed to the burst topic with QoS 0/1, also a publisher; fixed 256/1024 KB receive buffer, fixed 128/512 KB kernel send buffer on the broker's side of its connection) and a FAST client (subscribed to the same topic with QoS 0/1, also a publisher); 1-2 rounds of: the slow client stops reading its socket, a bounded QoS0 burst (batches of 10 messages of 16/64 KB, 'x' padding or random bytes sent with the endpoint's base64 flag, through httpTopicsPublishHandler, at most 1200) is injected until the slow client's outbound queue (writeCh, 50 slots) is observed full and stays full while nothing is injected, the fast client publishes 2-6 packets during the burst, then while the queue is full the slow client sends 2-8 PUBLISH packets (QoS0/QoS1 mix, >= 1 QoS1, some re-sent with DUP) and 0-4 QoS1 messages are injected for the burst topic (before or after the client's own packets), then the slow client reads again; verdicts only after it resumed: publish goroutines finished + two PINGREQ/PINGRESP round trips per client, then every QoS1 PUBLISH of either client has exactly one PUBACK per packet and one pipeline call per packet, and every QoS1 message injected while the queue was full (and one injected after the drain) is in the log of every client subscribed with QoS1 (a copy that only comes with a retransmission within 60 resend ticks is accepted) with exactly the published bytes; payloads of the clients' own packets and of the injected QoS1 messages rotate through the payload content classes of the Delivery part (binary incl. all byte values / non-UTF-8, text, empty body, ascii id); QoS0 copies of the burst are counted and their absence is never judged (the queue IS full), a copy that does arrive must have the published bytes; distinct = (sub QoS of both clients, payload size, own QoS1/QoS0 packets, injected QoS1, order, round, queue observed full)")
 	r.Assume("a client that stops reading resumes later (the unchanged broker blocks the connection's read loop, the resend ticker and the delivering goroutine on the full queue until then); every wait has a 60 s watchdog whose firing is inconclusive; fixed socket buffers are an environment knob (like net.ipv4.tcp_rmem/wmem) that keeps the burst needed to stall the write loop bounded; 'queue full when the PUBLISH was processed' is an observation (len(writeCh)==cap before the packet was sent, with no injection in progress, and again after the pipeline recorded the packet): it labels the signature and feeds Require, it is not part of a verdict")
 	n := r.N(8, 240)
 	for i := 0; i < n; i++ {
@@ -1017,7 +1395,7 @@ func TestVerif_C15_BackPressure(t *testing.T) {
 		mkPubs := func(who string, round, cnt int, needQ1 bool) []c15out {
 			var outs []c15out
 			for k := 0; k < cnt; k++ {
-				o := c15out{Topic: fmt.Sprintf("up/%s/%d", who, rng.Intn(3)), QoS: byte(rng.Intn(2)), Payload: fmt.Sprintf("bp%d.%s.%d.%d", i, who, round, k)}
+				o := c15mkOut(r, c15out{Topic: fmt.Sprintf("up/%s/%d", who, rng.Intn(3)), QoS: byte(rng.Intn(2))}, fmt.Sprintf("bp%d.%s.%d.%d", i, who, round, k), false)
 				if needQ1 && k == cnt-1 {
 					has := false
 					for _, p := range outs {
@@ -1048,6 +1426,7 @@ func TestVerif_C15_BackPressure(t *testing.T) {
 				InjectFirst: rng.Intn(2) == 0,
 			})
 		}
+		plan.BinFlood = r.Rand(fmt.Sprintf("bp-flood/%d", i)).Intn(2) == 0
 		r.Case(i, plan)
 		c15runBackPressure(r, i, plan)
 		if i == 0 {
@@ -1059,6 +1438,8 @@ func TestVerif_C15_BackPressure(t *testing.T) {
 	r.Require("bp_own_qos1_publishes_judged", 1)
 	r.Require("bp_qos1_deliveries_to_slow_client_judged", 1)
 	r.Require("bp_qos1_deliveries_to_fast_client_judged", 1)
+	r.Require("bp_qos1_delivered_identical_payload_kind:binary", 1)
+	r.Require("bp_qos1_delivered_identical_payload_kind:text", 1)
 }
 
 func c15runBackPressure(r *kit.Run, caseNo int, plan c15bpPlan) {
@@ -1134,12 +1515,18 @@ func c15runBackPressure(r *kit.Run, caseNo int, plan c15bpPlan) {
 		return true
 	}
 	pad := strings.Repeat("x", plan.PayloadKB*1024)
+	if plan.BinFlood {
+		b := make([]byte, plan.PayloadKB*1024)
+		r.Rand(fmt.Sprintf("bp-flood-bytes/%d", caseNo)).Read(b)
+		pad = string(b)
+	}
 	where := map[uint16]string{} // packet id of an own QoS1 PUBLISH -> situation it was sent in
 	var slowOuts, fastOuts []c15out
 	type inj struct {
-		payload string
-		sig     string
+		pl  c15pl
+		sig string
 	}
+	known := map[string]string{} // identity -> published bytes of the QoS1 messages injected for the burst topic
 	judgeDeliveries := func(msgs []inj) {
 		for _, m := range msgs {
 			for _, x := range []struct {
@@ -1156,13 +1543,20 @@ func c15runBackPressure(r *kit.Run, caseNo int, plan c15bpPlan) {
 					who = "slow"
 				}
 				r.Count("bp_qos1_deliveries_to_"+who+"_client_judged", 1)
-				n, bad := 0, false
-				for _, e := range x.c.pubs() {
-					if e.Payload == m.payload {
-						n++
-						bad = bad || e.Topic != c15bpTopic || e.QoS != 1
+				n, bad, altered := 0, false, ""
+				look := func() {
+					n, bad, altered = 0, false, ""
+					for _, e := range x.c.pubs() {
+						if c15plIs(e.Payload, m.pl) {
+							n++
+							bad = bad || e.Topic != c15bpTopic || e.QoS != 1
+							if e.Payload != m.pl.Data {
+								altered = c15plShow(e.Payload)
+							}
+						}
 					}
 				}
+				look()
 				if n == 0 {
 					// not in the first transmission: the property is also satisfied by a copy that
 					// comes with the session's retransmission (this client acknowledges at once, so
@@ -1171,7 +1565,7 @@ func c15runBackPressure(r *kit.Run, caseNo int, plan c15bpPlan) {
 						if x.c.ping() != "ok" {
 							return true
 						}
-						n, _ = x.c.copies(m.payload)
+						look()
 						return n > 0
 					})
 					if n > 0 {
@@ -1184,12 +1578,15 @@ func c15runBackPressure(r *kit.Run, caseNo int, plan c15bpPlan) {
 				}
 				switch {
 				case n == 0:
-					r.Violation(sig, map[string]interface{}{"plan": plan, "payload": m.payload, "missed_by": x.c.cid,
+					r.Violation(sig+c15plSuffix(m.pl), map[string]interface{}{"plan": plan, "msg": m.pl, "missed_by": x.c.cid,
 						"how_decided": "slow client reading again, publish goroutines finished, two PINGREQ/PINGRESP round trips on this connection, then 60 harness resend ticks each followed by a PING round trip: the message is not in the receive log"})
 				case bad:
-					r.Violation("delivered-with-wrong-topic-or-qos", map[string]interface{}{"plan": plan, "payload": m.payload, "client": x.c.cid})
+					r.Violation("delivered-with-wrong-topic-or-qos", map[string]interface{}{"plan": plan, "msg": m.pl, "client": x.c.cid})
+				case altered != "":
+					r.Violation("delivered-payload-differs-from-published:q1"+c15plSuffix(m.pl)+":back-pressure", map[string]interface{}{"plan": plan, "msg": m.pl, "client": x.c.cid, "received": altered})
 				default:
 					r.Count("delivered_q1_under_back_pressure", 1)
+					r.Count("bp_qos1_delivered_identical_payload_kind:"+c15plGroup(m.pl.Class), 1)
 					if n > 1 {
 						r.Count("duplicate_copies_seen", 1)
 					}
@@ -1221,7 +1618,7 @@ func c15runBackPressure(r *kit.Run, caseNo int, plan c15bpPlan) {
 		filled, injected := false, 0
 		for injected < c15bpMaxFlood && !filled {
 			for k := 0; k < c15bpBatch; k++ {
-				if code := rb.httpPublish(c15bpTopic, 0, fmt.Sprintf("%s%d|%s", pfx, floodSeq, pad), true); code != 200 {
+				if code := c15httpPublish(rb, c15bpTopic, 0, c15pl{Data: fmt.Sprintf("%s%d|%s", pfx, floodSeq, pad), B64: plan.BinFlood}, true); code != 200 {
 					r.Violation(fmt.Sprintf("http-publish-rejected:%d", code), map[string]interface{}{"plan": plan})
 				}
 				floodSeq++
@@ -1251,11 +1648,12 @@ func c15runBackPressure(r *kit.Run, caseNo int, plan c15bpPlan) {
 		var q1msgs []inj
 		inject := func() {
 			for k := 0; k < rd.Q1Inject; k++ {
-				m := inj{payload: fmt.Sprintf("bpq1.%d.%d.%d", caseNo, round, k), sig: "delivery-missed:q1:subscriber-outbound-queue-full"}
+				m := inj{pl: c15mkPayload(r, fmt.Sprintf("bpq1.%d.%d.%d", caseNo, round, k), c15plClasses[(caseNo*3+round*5+k)%len(c15plClasses)]), sig: "delivery-missed:q1:subscriber-outbound-queue-full"}
 				if !filled {
 					m.sig = "delivery-missed:q1:subscriber-not-reading"
 				}
-				if code := rb.httpPublish(c15bpTopic, 1, m.payload, true); code != 200 {
+				known[m.pl.ID] = m.pl.Data
+				if code := c15httpPublish(rb, c15bpTopic, 1, m.pl, true); code != 200 {
 					r.Violation(fmt.Sprintf("http-publish-rejected:%d", code), map[string]interface{}{"plan": plan})
 				}
 				q1msgs = append(q1msgs, m)
@@ -1281,7 +1679,7 @@ func c15runBackPressure(r *kit.Run, caseNo int, plan c15bpPlan) {
 		seen := false
 		for deadline := time.Now().Add(c15rigWatchdog); !seen && time.Now().Before(deadline); {
 			for _, pc := range rb.pipe.snapshot() {
-				if pc.CID == slowCID && pc.Payload == firstQ1 {
+				if pc.CID == slowCID && c15plKey(pc.Payload) == c15plKey(firstQ1) {
 					seen = true
 				}
 			}
@@ -1321,6 +1719,12 @@ func c15runBackPressure(r *kit.Run, caseNo int, plan c15bpPlan) {
 			for _, e := range c.pubs() {
 				if strings.HasPrefix(e.Payload, pfx) {
 					got++
+					// a copy that did arrive must be the published bytes: <pfx><seq>|<pad>
+					if k := strings.IndexByte(e.Payload, '|'); k < 0 || e.Payload[k+1:] != pad || strings.Trim(e.Payload[len(pfx):k], "0123456789") != "" || e.QoS != 0 || e.Topic != c15bpTopic {
+						r.Violation("delivered-payload-differs-from-published:q0:burst-copy:back-pressure", map[string]interface{}{"plan": plan, "client": c.cid, "received": c15plShow(e.Payload), "received_len": len(e.Payload), "published_len_after_id": len(pad)})
+					}
+				} else if _, ok := known[c15plKey(e.Payload)]; !ok && !strings.HasPrefix(e.Payload, fmt.Sprintf("f%d.", caseNo)) {
+					r.Violation("delivered-payload-of-no-published-message", map[string]interface{}{"plan": plan, "client": c.cid, "received": c15plShow(e.Payload), "part": "back-pressure"})
 				}
 			}
 			if c == slow && got < injected {
@@ -1337,8 +1741,9 @@ func c15runBackPressure(r *kit.Run, caseNo int, plan c15bpPlan) {
 		r.Cover(fmt.Sprintf("backpressure:slowq%d/fastq%d/kb%d/ownq1=%d/ownq0=%d/injq1=%d/injfirst=%v/round%d/full=%v", plan.SlowSubQoS, plan.FastSubQoS, plan.PayloadKB, q1own, len(rd.OwnPubs)-q1own, rd.Q1Inject, rd.InjectFirst, round, situation == ":own-outbound-queue-full"))
 	}
 	// after the drain: ordinary delivery works again
-	post := inj{payload: fmt.Sprintf("bppost.%d", caseNo), sig: "delivery-missed:q1:after-back-pressure"}
-	if code := rb.httpPublish(c15bpTopic, 1, post.payload, true); code != 200 {
+	post := inj{pl: c15mkPayload(r, fmt.Sprintf("bppost.%d", caseNo), c15plClasses[(caseNo+1)%len(c15plClasses)]), sig: "delivery-missed:q1:after-back-pressure"}
+	known[post.pl.ID] = post.pl.Data
+	if code := c15httpPublish(rb, c15bpTopic, 1, post.pl, true); code != 200 {
 		r.Violation(fmt.Sprintf("http-publish-rejected:%d", code), map[string]interface{}{"plan": plan})
 	}
 	if !rb.publishQuiesced() {
